@@ -177,11 +177,11 @@ end MythVerif.Wsq
 namespace MythVerif.WsqTso
 open MythVerif.Wsq (Elem Pid Holder)
 
-/- Full statement aimed at (DESIGN section 4, C02):
+/- Statement (DESIGN section 4, C02):
 
      theorem C02_no_loss_no_dup_tso : for every reachable state of the x86-TSO machine running ALL
-       queue operations (push with re-centring, pop, put, clear, take, wsapi take with decision
-       callback, trypass, peek, wsapi peek) with the fences of the source:
+       queue operations (push with re-centring, pop, put with re-centring, clear, take, wsapi take
+       with decision callback, trypass, peek, wsapi peek) with the fences of the source:
        retd.Nodup ∧ multiset(A) + in-flight + returned = multiset(inserted).
 
    Proved below, for every capacity, any number of other participants and every interleaving of
@@ -192,7 +192,8 @@ open MythVerif.Wsq (Elem Pid Holder)
        pointer word (`if (top <= base) wc->ptr = NULL`), reset path – and `put` WITH re-centring (at
        `base == 0`: `abort()` iff `top == size`, else `memmove` up by `(size-top+1)/2`,
        `top += offset`, `base += offset`, then the insertion proper in the same locked section,
-       no fence in between);
+       no fence in between), and `clear` (lock, `myth_assert(top == base)` – a failure is the
+       terminal program counter `assertFail` –, `base = size/2`, `top = base`, unlock);
      * any number of other participants, each running any sequence of `myth_queue_take`,
        `myth_queue_trypass` (trylock – a failure returns 0; `base == 0` returns 0; slot store,
        `base--`, unlock), `myth_queue_peek` (lock-free loads of `base`, `top`, one slot; nothing
@@ -211,13 +212,20 @@ open MythVerif.Wsq (Elem Pid Holder)
    the lock-free loads of `top` / `base` (quick checks, peek) may see the half-updated pair – their
    values are unconstrained in the invariant (`exRcHint` below exhibits such a read).  The two
    `abort()`s (`stuck`, `stuckL`) happen only on a full deque.
-   Not covered: clear.  Modelling simplification (DESIGN A.3): the releasing store of unlock is performed on
-   memory right after its fence. -/
+   That is every operation of `myth_wsqueue_func.h` plus the two queue functions of
+   `myth_if_native.c`; `myth_queue_pass` is the caller's retry loop around trypass (labels
+   `tPass` in sequence), `myth_queue_init` is `init`.  Not modelled: of the steal cache anything but
+   its pointer word (`seq`, `size`, `data`: the advisory copy of the hint), the signal-safety flag
+   `op_flag` and the optional `USE_LOCK*` / `USE_THREAD_CS` mutexes (compiled out in the verified
+   configuration, `C02_config_matches`).  Modelling simplifications: the releasing store of unlock
+   is performed on memory right after its fence (DESIGN A.3); a re-centring `memmove` is one buffer
+   entry (justified in the header of the model file). -/
 
-/-- **No loss, no duplication under x86-TSO store buffering (partial: everything except clear).**
+/-- **No loss, no duplication under x86-TSO store buffering (all queue operations).**
 In every reachable state of the store-buffer machine with the fences of the source, for every
-capacity and any number of other participants (each running take, wsapi take, trypass, peek or
-wsapi peek, in any order, the decision callback answering either way):
+capacity, the owner running any sequence of push / pop / put / clear and any number of other
+participants (each running take, wsapi take, trypass, peek or wsapi peek, in any order, the decision
+callback answering either way):
 the TSO invariant holds (buffer shapes, memory-side window `[lb, mem.top)` = prefix of `A`,
 `mem.base = lb (+1 while a thief's increment is visible)`), every value returned equals the element
 removed at the linearization point, nothing is returned twice, and inserted = deque + in flight +
@@ -232,7 +240,45 @@ only when the deque holds `size` elements (`lb = 0`, `lt = size`), and the tests
 the logical values; while the decision callback of wsapi take is asked the candidate is the head of
 the (non-empty) deque, and if it declines, then after the roll-back store, its drain and the unlock
 the deque, the slots, `top` and the returned / inserted lists are as before, `base` is the logical
-base again and the lock is free. -/
+base again and the lock is free; clear's assertion `top == base` reads the logical values and holds
+exactly when the deque is empty. -/
+theorem C02_no_loss_no_dup_tso (n : Int) (s : St) (h : Reachable step (init FenceCfg.code n) s) :
+    Inv s ∧
+    (s.ins.Nodup → s.retd.Nodup ∧ (s.A ++ (s.flT.toList ++ (s.flO.toList ++ s.retd))).Perm s.ins) ∧
+    ((∀ t, s.opc = .po2 t → viewBase s.bufO s.base + 1 < t → s.A.getLast? ≠ none) ∧
+     (∀ t, s.opc = .po4 t → viewBase s.bufO s.base ≤ t → s.A.getLast? ≠ none) ∧
+     (∀ p b, s.tpc p = .tk2 b → b < viewTop (s.bufT p) s.top → s.A ≠ [])) ∧
+    (s.opc = .idle → (∀ p, s.tpc p = .idle) → s.bufO = [] →
+      s.flO = none ∧ s.flT = none ∧ s.lock = .free ∧ s.base = s.lb ∧ s.top = s.lt ∧
+      (∀ k : Nat, k < s.A.length → s.ptr (s.base + k) = s.A[k]?) ∧ (s.A.length : Int) = s.top - s.base) ∧
+    ((∀ v e, Sto.baseI v e ∈ s.bufO →
+        s.opc = .pt9 ∧ s.lock = .owner ∧ v = s.lb + s.sh - 1 ∧ viewPtr s.bufO s.ptr v = some e) ∧
+     (∀ p v e, Sto.baseI v e ∈ s.bufT p →
+        (∃ ok, s.tpc p = .tp4 ok) ∧ s.lock = .thief p ∧ v = s.lb - 1 ∧ viewPtr (s.bufT p) s.ptr v = some e)) ∧
+    ((∀ e, s.opc = .pt1 e → viewBase s.bufO s.base = s.lb) ∧
+     (∀ p e, s.tpc p = .tp1 e → viewBase (s.bufT p) s.base = s.lb)) ∧
+    ((s.opc = .stuck ∨ s.opc = .stuckL →
+        (s.A.length : Int) = s.size ∧ s.lb = 0 ∧ s.lt = s.size ∧ s.top = s.size ∧ s.base = 0 ∧
+        s.lock = .owner ∧ s.bufO = []) ∧
+     (∀ e, s.opc = .pub e → viewBase s.bufO s.base = s.lb ∧ s.lt = s.size) ∧
+     (∀ e, s.opc = .pt2 e → viewTop s.bufO s.top = s.lt ∧ s.lb = 0)) ∧
+    (∀ p b r, s.tpc p = .wkd b r →
+      r = s.A.head? ∧ s.A ≠ [] ∧
+      ∃ s1 s2 s3 s4, step s (.tDecide p false) = some s1 ∧ step s1 (.t p) = some s2 ∧
+        step s2 (.flushT p) = some s3 ∧ step s3 (.t p) = some s4 ∧
+        s4.A = s.A ∧ s4.retd = s.retd ∧ s4.ins = s.ins ∧ s4.ptr = s.ptr ∧ s4.top = s.top ∧
+        s4.base = s4.lb ∧ s4.lb = s.lb ∧ s4.lock = .free ∧ s4.tpc p = .idle ∧ s4.bufT p = []) ∧
+    (s.opc = .cl1 → (viewTop s.bufO s.top = viewBase s.bufO s.base ↔ s.A = []) ∧
+      viewTop s.bufO s.top = s.lt ∧ viewBase s.bufO s.base = s.lb) := by
+  have hi := reachable_inv n s h
+  obtain ⟨g1, g2, g3, _⟩ := ghost_branches_unreachable s hi
+  exact ⟨hi, no_loss_no_dup n s h, ⟨g1, g2, g3⟩, quiescent_mem s hi,
+    ⟨owner_baseI s hi, thief_baseI s hi⟩, base_tests_logical s hi,
+    ⟨stuck_only_when_full s hi, (overflow_tests_logical s hi).1, (overflow_tests_logical s hi).2⟩,
+    decline_spec s hi, cl1_assert_iff s hi⟩
+
+/-- The former name of `C02_no_loss_no_dup_tso` (from the time the TSO machine covered only part of
+the operations); same statement, kept so that existing references keep working. -/
 theorem C02_no_loss_no_dup_tso_partial (n : Int) (s : St) (h : Reachable step (init FenceCfg.code n) s) :
     Inv s ∧
     (s.ins.Nodup → s.retd.Nodup ∧ (s.A ++ (s.flT.toList ++ (s.flO.toList ++ s.retd))).Perm s.ins) ∧
@@ -258,13 +304,10 @@ theorem C02_no_loss_no_dup_tso_partial (n : Int) (s : St) (h : Reachable step (i
       ∃ s1 s2 s3 s4, step s (.tDecide p false) = some s1 ∧ step s1 (.t p) = some s2 ∧
         step s2 (.flushT p) = some s3 ∧ step s3 (.t p) = some s4 ∧
         s4.A = s.A ∧ s4.retd = s.retd ∧ s4.ins = s.ins ∧ s4.ptr = s.ptr ∧ s4.top = s.top ∧
-        s4.base = s4.lb ∧ s4.lb = s.lb ∧ s4.lock = .free ∧ s4.tpc p = .idle ∧ s4.bufT p = []) := by
-  have hi := reachable_inv n s h
-  obtain ⟨g1, g2, g3, _⟩ := ghost_branches_unreachable s hi
-  exact ⟨hi, no_loss_no_dup n s h, ⟨g1, g2, g3⟩, quiescent_mem s hi,
-    ⟨owner_baseI s hi, thief_baseI s hi⟩, base_tests_logical s hi,
-    ⟨stuck_only_when_full s hi, (overflow_tests_logical s hi).1, (overflow_tests_logical s hi).2⟩,
-    decline_spec s hi⟩
+        s4.base = s4.lb ∧ s4.lb = s.lb ∧ s4.lock = .free ∧ s4.tpc p = .idle ∧ s4.bufT p = []) ∧
+    (s.opc = .cl1 → (viewTop s.bufO s.top = viewBase s.bufO s.base ↔ s.A = []) ∧
+      viewTop s.bufO s.top = s.lt ∧ viewBase s.bufO s.base = s.lb) :=
+  C02_no_loss_no_dup_tso n s h
 
 /-! non-vacuity (TSO machine): the owner pushes 1, 2, 3 (capacity 8) with the stores of the last
     push still buffered, starts a pop (its `top` store buffered behind them), and a thief takes
@@ -492,5 +535,23 @@ open Lbl in
 example : (runs step (init FenceCfg.code 8)
     (exWPeek ++ [oPop, o, o, flushO, o, o, o, o, o, o, o, o, flushO, flushO, o])).map
     (fun s => (s.opc, s.retd, s.cache, s.A, s.bufO)) = some (.idle, [5], none, [], []) := by decide
+
+
+/-! clear: 1 was pushed and taken (`top = base = 5`); clear re-centres the empty queue to `size/2`
+    – both stores buffered at its unlock –; on a non-empty queue its assertion fails -/
+open Lbl in
+def exClearPre : List Lbl :=
+  [oPush 1, o, o, o, o, flushO, flushO,
+   tTake 0, t 0, t 0, t 0, t 0, flushT 0, t 0, t 0, t 0, t 0,
+   oClear, o, o, o]
+
+example : (runs step (init FenceCfg.code 8) exClearPre).map
+    (fun s => (s.opc, s.bufO, s.top, s.base, s.lb)) = some (.cl3, [.base 4, .top 4], 5, 5, 4) := by decide
+open Lbl in
+example : (runs step (init FenceCfg.code 8) (exClearPre ++ [flushO, flushO, o])).map
+    (fun s => (s.opc, s.top, s.base, s.lock, s.retd)) = some (.idle, 4, 4, .free, [1]) := by decide
+open Lbl in
+example : (runs step (init FenceCfg.code 8) [oPush 1, o, o, o, o, flushO, flushO, oClear, o, o]).map
+    (fun s => (s.opc, s.lock, s.A)) = some (.assertFail, .owner, [1]) := by decide
 
 end MythVerif.WsqTso
